@@ -81,9 +81,15 @@ DECL = re.compile(r"^\s*(?:@\[[^\]]*\]\s*)?(?:private\s+|protected\s+)?theorem\s
 NS = re.compile(r"^\s*namespace\s+([\w.]+)", re.M)
 
 
-def theorems_of(prop):
-    """Names of the theorems declared in Props/<prop>.lean (fully qualified)."""
-    path = os.path.join(LEAN, "CtrlVerif", "Props", prop + ".lean")
+def theorems_of(prop, extra_modules=()):
+    """Names of the theorems declared in Props/<prop>.lean and in the extra modules."""
+    names = theorems_of_file(os.path.join(LEAN, "CtrlVerif", "Props", prop + ".lean"))
+    for mod in extra_modules:
+        names += theorems_of_file(os.path.join(LEAN, *mod.split(".")) + ".lean")
+    return names
+
+
+def theorems_of_file(path):
     src = strip_comments(open(path).read())
     names = []
     ns = []
@@ -102,13 +108,14 @@ def theorems_of(prop):
     return names
 
 
-def audit(prop):
+def audit(prop, extra_modules=()):
     """Regenerate Audit/<prop>.lean, elaborate it, parse the axioms of every theorem.
     Returns dict: {theorems: [...], axioms: {name: [axioms]}, bad: [...], ok: bool, log: str}."""
-    names = theorems_of(prop)
+    names = theorems_of(prop, extra_modules)
     os.makedirs(os.path.join(LEAN, "Audit"), exist_ok=True)
     path = os.path.join(LEAN, "Audit", prop + ".lean")
-    body = "import CtrlVerif.Props.%s\n\n" % prop + "".join("#print axioms %s\n" % n for n in names)
+    body = "import CtrlVerif.Props.%s\n" % prop + "".join("import %s\n" % m for m in extra_modules) \
+        + "\n" + "".join("#print axioms %s\n" % n for n in names)
     old = open(path).read() if os.path.exists(path) else None
     if old != body:
         with open(path, "w") as f:
